@@ -40,6 +40,8 @@ fn generate(seed: u64, tier: Tier) -> Scenario {
     env.delay = None;
     let mut cfg = GenCfg::draw(&mut r, &opts, false);
     cfg.symlinks = false;
+    // owners with only one nameable half: restore has nothing to set for the other half
+    cfg.unnamed_owners = cfg.owners;
     cfg.max_depth = 1 + r.usize(3);
     let mut g = Gen::new(r.derive("gen"));
     let root_meta = g.root_meta(&cfg);
@@ -88,6 +90,11 @@ fn generate(seed: u64, tier: Tier) -> Scenario {
             let mut es: Vec<EditOp> = model.dirs().into_iter().filter(|x| x != "/" && x.matches('/').count() == 1).map(|x| EditOp::Remove { path: x }).collect();
             let mut meta = g.meta(&cfg, false);
             meta.mode = 0o777;
+            if r.chance(1, 3) {
+                // an owner of which only the group has a name on this machine
+                meta.uid = 54_321;
+                meta.gid = 1;
+            }
             let target = if r.chance(1, 2) { "../outside/d".to_string() } else { format!("{BOX}/outside/d") };
             es.push(EditOp::Put { path: d.clone(), node: TNode { kind: NodeKind::Symlink { target }, meta } });
             steps.push(Step::Edit(es));
